@@ -1,6 +1,7 @@
 From Coq Require Import List NArith Bool.
 From V.gen Require Consts.
-From V.C20 Require Import Model Proofs.
+From V.common Require Protobuf.
+From V.C20 Require Import Model Proofs Bytes.
 Import ListNotations.
 Open Scope N_scope.
 From V.C20 Require Import Properties.
@@ -209,6 +210,28 @@ Check (C20_request_lossless :
   forall mb mm cids,
     flat_map omsg_wants (action_msgs mb mm (ARequest cids)) =
     filter (fits (cid * want_type) (fun _ => 0) sw_elen req_mlen 0 mm) cids).
+Check (C20_request_bytes_length :
+  forall cids, request_len cids < 2 ^ 64 -> Protobuf.blen (request_bytes cids) = request_len cids).
+Check (C20_presences_bytes_length :
+  forall l, message_len spres sp_elen blk_mlen l < 2 ^ 64 ->
+    Protobuf.blen (presences_bytes l) = message_len spres sp_elen blk_mlen l).
+Check (C20_blocks_bytes_length :
+  forall l, message_len cblock cb_elen blk_mlen l < 2 ^ 64 ->
+    Protobuf.blen (blocks_bytes l) = message_len cblock cb_elen blk_mlen l).
+Check (C20_wire_blocks_bounded :
+  forall mb mm l, mm < 2 ^ 64 ->
+    Forall (fun batch => batch <> [] /\ sum (map cb_dlen batch) <= mb /\ Protobuf.blen (blocks_bytes batch) <= mm)
+           (send_response_cblocks mb mm l) /\
+    concat (send_response_cblocks mb mm l) = filter (fits cblock cb_dlen cb_elen blk_mlen mb mm) l).
+Check (C20_wire_presences_bounded :
+  forall mm l, mm < 2 ^ 64 ->
+    Forall (fun batch => batch <> [] /\ Protobuf.blen (presences_bytes batch) <= mm) (send_response_presences mm l)).
+Check (C20_wire_requests_bounded :
+  forall mm cids, 2 <= mm -> mm < 2 ^ 64 ->
+    Forall (fun batch => Protobuf.blen (request_bytes batch) <= mm) (send_request_msgs mm cids)).
+Check (C20_request_bytes_parse :
+  forall cids, request_len cids < 2 ^ 64 ->
+    Protobuf.pb_parse (request_bytes cids) = Protobuf.Ok (request_fields cids)).
 Check (C20_events_only_from_frames :
   forall (D : Type) (digest : N -> D -> option (list N)) mb mm s e s' evs w,
     peer_step D digest mb mm s e = (s', (evs, w)) -> evs <> [] ->
